@@ -666,15 +666,15 @@ Theorem redeem_genuine_int :
     B.presented_id r = d_client_id d /\ B.presented_secret r = d_client_secret d /\ B.rq_method r = B.m_post.
 Proof.
   intros Hst.
-  pose proof (back_adapter lower d o now_ns slug p q an B.HRedeem r) as Ha. fold resp in Ha.
-  set (rs := B.serve_route (bcfg d) (benv d p o an (now_ns / ns)) (b_route B.HRedeem) r (B.init_state (d_pre d) r)) in Ha.
+  pose (rs := B.serve_route (bcfg d) e (b_route B.HRedeem) r (B.init_state (d_pre d) r)).
+  assert (Ha : resp = of_back d o now_ns p an r rs) by apply back_adapter.
   assert (Hs : B.serve (bcfg d) e (d_pre d) r = rs) by reflexivity.
   rewrite Ha, of_back_status in Hst.
   destruct (BP.redeem_genuine (bcfg d) e (d_pre d) r eq_refl) as [s [Ho [Hr [Hl [Hb [Hc [Hi [Hsec Hm]]]]]]]].
   { rewrite Hs. exact Hst. }
   rewrite Hs in Hb, Hc. exists s. split; [exact Ho|]. split; [exact Hr|]. split; [exact Hl|].
   destruct (BP.gate_sound (bcfg d) e (b_route B.HRedeem) r (d_pre d) (b_route_both B.HRedeem)) as [G1 G2].
-  fold rs in G1, G2.
+  change (B.serve_route (bcfg d) e (b_route B.HRedeem) r (B.init_state (d_pre d) r)) with rs in G1, G2.
   destruct (B.rs_ran rs) as [h0|] eqn:Er.
   2:{ exfalso. destruct (G2 eq_refl) as [_ [_ [[X _]|[[X _]|[X _]]]]]; rewrite Hst in X; discriminate. }
   destruct (G1 h0 eq_refl) as [-> _]. rewrite Ha. unfold of_back. rewrite Er. unfold of_back_handler, mk. cbn [r_body r_calls r_sess_ops].
@@ -684,10 +684,11 @@ Proof.
   (* not expired, so nothing is cleared *)
   unfold redeem_clears. cbn [B.parse_form]. cbn [negb andb B.form_of].
   change (B.form_get B.k_code (the_form r)) with (B.presented_code r).
-  unfold B.unseal. cbn [B.e_open benv]. rewrite Ho. rewrite N.eqb_refl.
-  change (B.e_now (benv d p o an (now_ns / ns))) with now_s.
-  assert (X1 : (B.s_refresh_dl s <? now_s)%Z = false) by (apply Z.ltb_ge; exact Hr).
-  assert (X2 : (B.s_lifetime_dl s <? now_s)%Z = false) by (apply Z.ltb_ge; exact Hl).
+  change (AuthBack.r_handler (b_route B.HRedeem)) with B.HRedeem. cbv iota.
+  change (benv d p o an (now_ns / ns)) with e.
+  unfold B.unseal. rewrite Ho. change (AuthBack.cfg_code_key (bcfg d)) with (d_code_key d). rewrite N.eqb_refl.
+  assert (X1 : (B.s_refresh_dl s <? B.e_now e)%Z = false) by (apply Z.ltb_ge; exact Hr).
+  assert (X2 : (B.s_lifetime_dl s <? B.e_now e)%Z = false) by (apply Z.ltb_ge; exact Hl).
   rewrite X1, X2. reflexivity.
 Qed.
 
